@@ -60,8 +60,8 @@ Proof.
     rewrite Forall_forall in H0. apply (H0 x Hx). }
   split.
   - intros m ->. unfold map_identifiers in Mc, Mn.
-    destruct (lookup_all m (c_ids p)) as [cids'|] eqn:Ec; try discriminate.
-    destruct (lookup_all m (n_ids p)) as [nids'|] eqn:En; try discriminate.
+    destruct (lookup_all m (c_ids p)) as [cids'|] eqn:Ec; try discriminate. destruct (nodup_str cids') eqn:Dc; try discriminate.
+    destruct (lookup_all m (n_ids p)) as [nids'|] eqn:En; try discriminate. destruct (nodup_str nids') eqn:Dn; try discriminate.
     inversion Mc; inversion Mn; subst.
     rewrite (rf_nids _ _ _ _ _ _ _ _ _ _ Fk), (rf_cids _ _ _ _ _ _ _ _ _ _ Fk).
     split; [|split; [|split]].
@@ -71,6 +71,18 @@ Proof.
     + apply SS, argsort_sorted.
   - intros ->. simpl in Mc, Mn. inversion Mc; inversion Mn; subst.
     rewrite (rf_nids _ _ _ _ _ _ _ _ _ _ Fk), (rf_cids _ _ _ _ _ _ _ _ _ _ Fk). split; apply sel_seq; auto.
+Qed.
+
+(* with an identifier mapping the new identifiers are distinct (mappings that are not one-to-one are rejected) *)
+Theorem remap_ids_nodup_final m : mapping = Some m -> NoDup (c_ids r) /\ NoDup (n_ids r).
+Proof.
+  intros ->. destruct (remap_inv _ _ _ _ _ Hr) as [cids [nids [cidx [nidx Fk]]]].
+  pose proof (rf_cmap _ _ _ _ _ _ _ _ _ _ Fk) as Mc. pose proof (rf_nmap _ _ _ _ _ _ _ _ _ _ Fk) as Mn.
+  pose proof (map_identifiers_nodup _ _ _ _ Mc) as Dc. pose proof (map_identifiers_nodup _ _ _ _ Mn) as Dn.
+  apply map_identifiers_perm in Mc. apply map_identifiers_perm in Mn. destruct Mc as [Lc Pc]. destruct Mn as [Ln Pn].
+  rewrite (rf_cids _ _ _ _ _ _ _ _ _ _ Fk), (rf_nids _ _ _ _ _ _ _ _ _ _ Fk). split.
+  - eapply Permutation_NoDup. apply Permutation_sym. eapply sel_permutation; eauto. auto.
+  - eapply Permutation_NoDup. apply Permutation_sym. eapply sel_permutation; eauto. auto.
 Qed.
 
 Theorem remap_spectral_final evs' Vs' : eigvals r = Have evs' -> eigvecs r = Have Vs' ->
